@@ -61,6 +61,21 @@ func inWorld(rt *rapid.T, opt hlsim.Options, body func(rt *rapid.T, w *hlsim.Wor
 		if err != nil {
 			rt.Fatalf("harness: building world: %v", err)
 		}
+		// what the server code takes for the system's temporary directory lies inside the sandbox, where the snapshot
+		// oracles see it (anything the server leaves there is a file outside its trees)
+		oldTmp, hadTmp := os.LookupEnv("TMPDIR")
+		systmp := filepath.Join(w.Sandbox, "systmp")
+		if err := os.MkdirAll(systmp, 0o755); err != nil {
+			rt.Fatalf("harness: %v", err)
+		}
+		os.Setenv("TMPDIR", systmp)
+		defer func() {
+			if hadTmp {
+				os.Setenv("TMPDIR", oldTmp)
+			} else {
+				os.Unsetenv("TMPDIR")
+			}
+		}()
 		// clients may send the fields of a request in any order: in half of the cases every request of the case does
 		if rapid.Bool().Draw(rt, "shuffleRequestFields") {
 			w.FieldOrder = rapid.Uint64Range(1, 1<<62).Draw(rt, "fieldOrder")
